@@ -99,6 +99,20 @@ func propC21Marshal(t testing.TB) {
 		if typ%2 == 0 || typ < 42069 || typ > 42085 {
 			t.Fatalf("VKEY[C21/type-number] %d not an odd number in range", typ)
 		}
+		// the returned payload belongs to the caller (swaps keep it for retransmission): marshalling further
+		// messages - of any swap - must not change it
+		keep := append([]byte{}, b...)
+		for i, n := 0, rapid.IntRange(0, 3).Draw(t, "laterMessages"); i < n; i++ {
+			other := &swap.CoopCloseMessage{SwapId: genSwapId(t), Message: genStr(t, "om"), Privkey: strings.Repeat("5e", 32)}
+			if rapid.Bool().Draw(t, "otherIsCancel") {
+				_, _, _ = swap.MarshalPeerswapMessage(&swap.CancelMessage{SwapId: other.SwapId, Message: other.Message})
+			} else {
+				_, _, _ = swap.MarshalPeerswapMessage(other)
+			}
+		}
+		if !bytes.Equal(keep, b) {
+			t.Fatalf("VKEY[C21/payload-changed-after-return] the payload returned for a %s message changed when other messages were marshalled:\n was %s\n now %s", kind, truncate(string(keep), 300), truncate(string(b), 300))
+		}
 		out := fresh()
 		if err := json.Unmarshal(b, out); err != nil {
 			t.Fatalf("VKEY[C21/roundtrip] %s does not decode: %v (%s)", kind, err, b)
